@@ -113,9 +113,15 @@ Definition set_kids (o : obj) (k : list kid) : obj := {| ok := ok o; verts := ve
 
 Record flags := { f_guard_cells : bool;      (* CellObject.remove_vertices skips remove_cells when no cell is touched *)
                   f_skip_valueless : bool;   (* remove_children_values skips children that have no values *)
-                  f_read_empty : bool }.     (* H5Reader.fetch_values accepts a zero-length dataset *)
-Definition as_is : flags := {| f_guard_cells := false; f_skip_valueless := false; f_read_empty := false |}.
-Definition repaired : flags := {| f_guard_cells := true; f_skip_valueless := true; f_read_empty := true |}.
+                  f_read_empty : bool;       (* H5Reader.fetch_values accepts a zero-length dataset *)
+                  f_copy_text : bool }.      (* Data.copy blanks with np.full_like (works for str arrays) *)
+Definition as_is : flags := {| f_guard_cells := false; f_skip_valueless := false; f_read_empty := false; f_copy_text := false |}.
+Definition repaired : flags := {| f_guard_cells := true; f_skip_valueless := true; f_read_empty := true; f_copy_text := true |}.
+
+(* H5Writer.write_data_values tests values[0] of a text array: a zero-length text array cannot be written (IndexError);
+   the values setter has already stored it in memory, the old dataset is already deleted *)
+Definition text_empty (k : dkind) (v : vals) : bool :=
+  dkind_eqb k KText && match v with [] => true | _ => false end.
 
 (* what a failing operation leaves behind is part of the model *)
 Inductive outcome := Done (o : obj) | Failed (e : err) (o : obj).
@@ -155,7 +161,9 @@ Fixpoint rcv (fl : flags) (I : list Z) (a : assoc) (n : nat) (ks : list kid) : l
             | Ok v' =>
                 match format_length n (kkind k) (kassoc k) v' with
                 | Err e => (k :: r, Some e)
-                | Ok v'' => let (r', e) := rcv fl I a n r in (set_vals k (Some v'') :: r', e)
+                | Ok v'' =>
+                    if text_empty (kkind k) v'' then (set_vals k (Some v'') :: r, Some IndexError)
+                    else let (r', e) := rcv fl I a n r in (set_vals k (Some v'') :: r', e)
                 end
             end
         end
@@ -301,29 +309,31 @@ Fixpoint fill_masked (nv : option Z) (m : list bool) (v : vals) : vals :=
   end.
 
 (* Data.copy(parent=new, mask=m): [n_new] = n_cells / n_vertices of the new parent *)
-Definition data_copy (n_new : nat) (m : option (list bool)) (k : kid) : res kid :=
+Definition data_copy (fl : flags) (n_new : nat) (m : option (list bool)) (k : kid) : res kid :=
   let k0 := {| kid_id := kid_id k; kassoc := kassoc k; kkind := kkind k; kvals := kvals k |} in
   match kvals k, m with
   | Some v, Some m =>
       if negb (Nat.eqb (length m) (length v)) then Err ValueError
       else
-        if negb (n_new <? length v) && dkind_eqb (kkind k) KText then Err TypeError   (* np.ones_like(str array) * "" *)
+        if negb (n_new <? length v) && dkind_eqb (kkind k) KText && negb (f_copy_text fl)
+        then Err TypeError                                            (* np.ones_like(str array) * "" *)
         else
         let v' := if n_new <? length v then select m v else fill_masked (ndv (kkind k)) m v in
         match format_length n_new (kkind k) (kassoc k) v' with      (* the copy's constructor runs the values setter *)
-        | Ok v'' => Ok (set_vals k0 (Some v''))
+        | Ok v'' => if text_empty (kkind k) v'' then Err IndexError     (* the copy's empty text array cannot be written *)
+                    else Ok (set_vals k0 (Some v''))
         | Err e => Err e
         end
   | _, _ => Ok k0
   end.
 
-Fixpoint copy_kids (nv nc : nat) (vm cm : option (list bool)) (ks : list kid) : res (list kid) :=
+Fixpoint copy_kids (fl : flags) (nv nc : nat) (vm cm : option (list bool)) (ks : list kid) : res (list kid) :=
   match ks with
   | [] => Ok []
   | k :: r =>
       let m := match kassoc k with AVertex => vm | ACell => cm | AObject => None end in
       let n := match kassoc k with AVertex => nv | ACell => nc | AObject => 1 end in
-      match data_copy n m k, copy_kids nv nc vm cm r with
+      match data_copy fl n m k, copy_kids fl nv nc vm cm r with
       | Ok k', Ok r' => Ok (k' :: r')
       | Err e, _ => Err e
       | _, Err e => Err e
@@ -334,17 +344,17 @@ Definition new_id (m : list bool) (i : nat) : nat := if nth i m false then rank 
 
 (* Points.copy / CellObject.copy with mask (vertex mask) and/or cell_mask; a failure leaves the source untouched
    (a half-built copy may exist elsewhere in the workspace: not part of this state) *)
-Definition masked_copy (o : obj) (vm cm : option (list bool)) : outcome :=
+Definition masked_copy (fl : flags) (o : obj) (vm cm : option (list bool)) : outcome :=
   match ok o with
   | OPoints =>
       match vm with
-      | None => match copy_kids (length (verts o)) 0 None None (kids o) with
+      | None => match copy_kids fl (length (verts o)) 0 None None (kids o) with
                 | Ok ks => Done (set_kids o ks) | Err e => Failed e o end
       | Some m =>
           if negb (Nat.eqb (length m) (length (verts o))) then Failed ValueError o
           else let vs' := select m (verts o) in
                (* ObjectBase.copy hands the vertex mask to VERTEX *and* CELL children *)
-               match copy_kids (length vs') 0 (Some m) (Some m) (kids o) with
+               match copy_kids fl (length vs') 0 (Some m) (Some m) (kids o) with
                | Ok ks => Done {| ok := ok o; verts := vs'; cells := []; kids := ks |}
                | Err e => Failed e o
                end
@@ -361,20 +371,20 @@ Definition masked_copy (o : obj) (vm cm : option (list bool)) : outcome :=
                 if negb (Nat.eqb (length c) (length (cells o))) then Failed IndexError o
                 else
                   let cs' := select c (map (map (new_id m)) (cells o)) in
-                  match copy_kids (length vs') (length cs') (Some m) (Some c) (kids o) with
+                  match copy_kids fl (length vs') (length cs') (Some m) (Some c) (kids o) with
                   | Ok ks => Done {| ok := ok o; verts := vs'; cells := cs'; kids := ks |}
                   | Err e => Failed e o
                   end
             end
       | None =>
           match cm with
-          | None => match copy_kids (length (verts o)) (length (cells o)) None None (kids o) with
+          | None => match copy_kids fl (length (verts o)) (length (cells o)) None None (kids o) with
                     | Ok ks => Done (set_kids o ks) | Err e => Failed e o end
           | Some c =>
               if negb (Nat.eqb (length c) (length (cells o))) then Failed IndexError o
               else
                 let cs' := select c (cells o) in
-                match copy_kids (length (verts o)) (length cs') None (Some c) (kids o) with
+                match copy_kids fl (length (verts o)) (length cs') None (Some c) (kids o) with
                 | Ok ks => Done {| ok := ok o; verts := verts o; cells := cs'; kids := ks |}
                 | Err e => Failed e o
                 end
@@ -425,7 +435,7 @@ Definition step (fl : flags) (o : obj) (p : op) : option outcome :=
       | OPoints, ACell => None   (* Points have no cell count (n_values is None): cell data on Points is outside the model *)
       | _, _ => Some (add_data o id a k v)
       end
-  | MaskedCopy vm cm => Some (masked_copy o vm cm)
+  | MaskedCopy vm cm => Some (masked_copy fl o vm cm)
   | Reopen order => option_map Done (reopen o order)
   end.
 
@@ -463,7 +473,7 @@ Definition cell_mask (m : list bool) (cs : list (list nat)) : list bool :=
   map (fun c => forallb (fun v => nth v m false) c) cs.
 
 (* ------------------------------------------------------------------ observations (correspondence files) *)
-Inductive rval := RV (v : option vals) | RE (e : err).
+Inductive rval := RV (v : option vals) | RS (x : option Z) (* a scalar string *) | RE (e : err).
 Definition osnap : Type := (list pt * list (list nat) * list (nat * assoc * rval))%type.
 
 Definition snap_live (o : obj) : osnap :=
@@ -475,6 +485,11 @@ Definition read_file (fl : flags) (o : obj) (k : kid) : rval :=
   match kvals k with
   | None => RV None
   | Some v =>
+      if dkind_eqb (kkind k) KText then
+        (* TextData.values getter: no length check; an empty text array never reached the file; H5Reader.fetch_values turns
+           a one-entry string array into a scalar str *)
+        match v with [] => RV None | [x] => RS x | _ => RV (Some v) end
+      else
       if (match v with [] => negb (f_read_empty fl) | _ => false end) then RE IndexError
       else match format_length (n_values o (kassoc k)) (kkind k) (kassoc k) v with
            | Ok v' => RV (Some v') | Err e => RE e end
@@ -488,6 +503,7 @@ Definition vals_eqb : vals -> vals -> bool := list_eqb (option_eqb Z.eqb).
 Definition rval_eqb (a b : rval) : bool :=
   match a, b with
   | RV x, RV y => option_eqb vals_eqb x y
+  | RS x, RS y => option_eqb Z.eqb x y
   | RE x, RE y => err_eqb x y
   | _, _ => false
   end.
